@@ -1795,6 +1795,9 @@ class Transaction(object):
                 if sig_domain[newsig_pos] == '':
                     sig_domain[newsig_pos] = sig
                     n_sigs_to_insert -= 1
+                elif replace_signatures:
+                    # Replaced by the new signature of the same key, do not insert it somewhere else
+                    n_sigs_to_insert -= 1
             if n_sigs_to_insert:
                 for sig in self.inputs[tid].signatures:
                     free_positions = [i for i, s in enumerate(sig_domain) if s == '']
